@@ -1,5 +1,8 @@
 (* Actual/CfgToolActual.v — the quirk vector claimed for the current tree (hand-maintained; tied to the
-   code by the correspondence check, listed flag by flag in /verif/known.d/C20.json). *)
+   code by the correspondence check, listed flag by flag in /verif/known.d/C20.json).
+   q_missing_by_raw_key and q_cli_raw_key stay `true` = "as found in the source": since repo commits 2b4908f / 5897da0 the
+   source normalises (Gen.missing_by_normalised_key, Gen.set_normalises_key, Gen.get_normalises_key = true), so these two
+   no longer deviate from the property; a revert flips the Gen items, breaks the proofs and re-opens the findings. *)
 From TL Require Import Lib.Base Model.CfgMerge.
 
 Definition cfgtool_actual : cquirks := {|
